@@ -117,6 +117,21 @@ theorem drain_to (s₁ : Server) (c : Nat) (ws : List Will) (t d : Nat) (h : (t,
       · obtain ⟨w', hw', h'⟩ := ih h
         exact ⟨w', List.mem_cons_of_mem _ hw', h'⟩
 
+theorem drainT_toks (ws : List Will) : (drainT ws).map (·.1) = ws.map (·.tok) := by
+  induction ws with
+  | nil => rfl
+  | cons w ws ih => simp [drainT, ih]
+
+theorem drainT_no_to (ws : List Will) (t d : Nat) : (t, some (Dest.to d)) ∉ drainT ws := by
+  induction ws with
+  | nil => simp [drainT]
+  | cons w ws ih =>
+    simp only [drainT, List.mem_cons, not_or]
+    refine ⟨?_, ih⟩
+    intro h
+    simp only [Prod.mk.injEq] at h
+    cases hi : w.imm <;> simp [hi] at h
+
 /-! ### recv -/
 /-- the reply handed to an open connection is written to that connection, or not at all -/
 theorem recv_open (s : Server) (d tok : Nat) (y : Conn) (hy : s.conns[d]? = some y) (ho : y.closed = false) (e : Nat)
